@@ -13,6 +13,7 @@ from ..common import Report
 
 PROPERTY = "C20"
 ENGINE = "E2"
+TECHNIQUE = "bounded-exhaustive enumeration of polyhedra x coordinate transforms x 7 formats x 2 entry points, read back by independent strict parsers"
 RULE = (
     "cases = polyhedron (S3 lattice hulls, prisms n=3..12 so face degrees 3..12 occur, VOX 2x2x2 voxel solids) as ConvexPolyhedron "
     "and as Polyhedron x coordinate transform (scales 1e-6..1e6 and shifts of either sign so that exponent notation occurs) x the "
